@@ -737,7 +737,7 @@ impl BitField {
         }
     }
 
-    fn min(&self, endianness: Endianness) -> i64 {
+    fn min(&self, endianness: Endianness) -> i128 {
         if self.ty.is_signed() {
             let lsb = self.lsb(endianness);
             let msb = self.msb(endianness);
@@ -748,7 +748,7 @@ impl BitField {
         }
     }
 
-    fn max(&self, endianness: Endianness) -> i64 {
+    fn max(&self, endianness: Endianness) -> i128 {
         let lsb = self.lsb(endianness);
         let msb = self.msb(endianness);
         if self.ty.is_signed() {
